@@ -8,7 +8,7 @@ EXPLANATION = ("gix_features::parallel::in_parallel_with_slice hands each worker
                "value with the captured slice length and yields old+1, that the pointer is input.as_mut_ptr() of the exclusively borrowed slice, and that an Err from "
                "the consumer sets stop_everything before returning. All worker threads of the module are spawned with spawn_scoped inside thread::scope; the two unscoped "
                "thread::spawn sites are the listed ones (EagerIter's channel-fed producer; Stepwise, which joins in Drop). Exactly-once delivery of the channel-based "
-               "variants under all schedules is not decided.")
+               "variants under all schedules is not decided. <Stepwise as Drop>::drop drops the receiver it takes out of self.receive_result (mem::drop or MIR drop) on every path before it joins a thread.")
 UNSCOPED_OK = {
     "gix_features::parallel::eager_iter::EagerIter::<I>::new": "producer owns its iterator and ends when the bounded channel's receiver is dropped",
     "gix_features::parallel::reduce::stepped::Stepwise::<Reduce>::new": "handles are stored and joined in Drop for Stepwise",
@@ -16,6 +16,7 @@ UNSCOPED_OK = {
 
 
 def run(db, chk):
+    stepwise_drop_rule(db, chk)
     root = db.one(r"^gix_features::parallel::in_parallel::in_parallel_with_slice$")
     clos = [g for g in db.closures_of(root) if g.kind == "closure"]
     adds = [(g, c) for g in clos for c in g.calls() if c.is_(r"ptr::mut_ptr::<impl \*mut T>::add$")]
@@ -66,3 +67,40 @@ def run(db, chk):
         chk.ob("scoped-inside-scope", "%s@%d" % (f.name.split("parallel::")[-1][:60], c.line), ok, "", c.where(), key="scoped|%s" % f.name)
     drops = [f for f in db.by_crate["gix_features"] if f.trait_item == "core::ops::drop::Drop::drop" and "Stepwise" in f.name]
     chk.ob("no-detached-threads", "Stepwise joins in Drop", bool(drops) and any(c.is_(r"JoinHandle::<T>::join$") for d in drops for c in d.calls()), "", key="stepwise-joins")
+
+
+def stepwise_drop_rule(db, chk):
+    """dropping a step-wise reduction terminates its threads: workers block in send() while the result receiver is alive, so <Stepwise as Drop>::drop
+    must have dropped the original receiver (the value taken out of self.receive_result) on every path before it joins a thread."""
+    from gx.flow import Flow
+    f = db.one(r"Stepwise<Reduce> as core::ops::drop::Drop>::drop$")
+    fl = Flow(f)
+    takes = [c for c in f.calls_to(r"mem::(replace|take|swap)$") if any(r[0] == "arg" and ".receive_result" in r[2] for r in fl.roots(c.args[0], stop_named=False))]
+    joins = f.calls_to(r"JoinHandle::<T>::join$|JoinHandle<T>>?::join$")
+    chk.floor("Stepwise::drop: takes the receiver out of self / joins threads", min(len(takes), len(joins)), 1)
+    if not takes or not joins:
+        return
+    held = set()
+    for t_ in takes:
+        if t_.dest:
+            held.add(t_.dest[0])
+    # locals the taken receiver is moved into
+    changed = True
+    while changed:
+        changed = False
+        for bi, si, pl, rv, ln, mc in f.assigns():
+            if rv[0] == "use" and "p" in rv[1] and rv[1]["p"][0] in held and len(pl) == 1 and pl[0] not in held:
+                held.add(pl[0]); changed = True
+    dropsites = set()
+    for bi in f.reachable_blocks():
+        t = f.term(bi)
+        if t[0] == "drop" and t[1][0] in held:
+            dropsites.add(bi)
+    for c in f.calls_to(r"mem::drop$"):
+        if "p" in c.args[0] and c.args[0]["p"][0] in held:
+            dropsites.add(c.block)
+    r = f.reach_from(0, avoid=dropsites)
+    early = [c for c in joins if c.block in r]
+    chk.ob("receiver-dropped-before-join", "<Stepwise as Drop>::drop", bool(dropsites) and not early,
+           "a thread is joined while the receiver taken out of self.receive_result is still alive: workers blocked in send() never finish and drop() waits forever",
+           (early[0] if early else joins[0]).where(), key="receiver-dropped-before-join|Stepwise")
